@@ -1159,7 +1159,9 @@ impl<Sink: TokenSink> XmlTokenizer<Sink> {
         let _ = self.run(&input);
 
         loop {
-            if !matches!(self.eof_step(), ProcessResult::Continue) {
+            // Only the EOF token ends the loop: a tag flushed at EOF may make the
+            // sink ask for a script suspension, which cannot be honoured any more.
+            if matches!(self.eof_step(), ProcessResult::Done) {
                 break;
             }
         }
